@@ -244,6 +244,12 @@ class ScanModel:
                 out.append(e)
         return out
 
+    def result_stores_outside_loops(self) -> List[Event]:
+        """stores into the result array that are not made by one of the three recognised loops (slice / vectorised stores before, between or after them)"""
+        lids = {self.prefix['lid'], self.main['lid'], self.adv['lid']}
+        return [e for e in self.ev.events if e.kind == 'store' and isinstance(e.data.get('target_expr'), ast.Name) and e.data['target_expr'].id == self.ind
+                and not any(l.lid in lids for l in e.loops)]
+
     def foreign_stores(self) -> List[Event]:
         return [e for e in self.ev.events if e.kind in ('store', 'field', 'append') and not (
             isinstance(e.data.get('target_expr'), ast.Name) and e.data['target_expr'].id == self.ind)]
